@@ -42,6 +42,8 @@ TRUSTED_BASE = [
     "correspondence harness and dense oracles under harness/ (NumPy einsum/tensordot/kron on small dense arrays)",
     "contracts of numpy.linalg.qr/svd, scipy expm/expm_multiply/solve_ivp, copy.deepcopy as explicit hypotheses",
     "floating point is not modelled; value-level comparisons are exact on integer/dyadic inputs, tolerance-based otherwise",
+    "value-level network semantics lean/Ptn/Common/EinsumModel.lean (sumPairs / netValue / Expr.eval): that numpy.tensordot / "
+    "transpose realise it is validated on every run (C04 streams ein / einrec, integer value cases of C02/C03/C04/C08), not proved",
 ]
 
 
